@@ -799,6 +799,21 @@ def str_method(obj, name, args, kwargs):
                       unpack=lambda o, k: [Hole((obj.tag, "piece", i), pk) for i in range(k)],
                       getitem=lambda o, i: Hole((obj.tag, "piece", i), pk, nonempty=obj.nonempty) if isinstance(i, int) and i >= 0
                       else (_ for _ in ()).throw(Unsupported("index into split() result")))
+    if name == "count" and len(args) == 1 and isinstance(args[0], str) and args[0] and isinstance(obj, Hole):
+        # consistent with split(): sep occurs (number of pieces - 1) times (non-overlapping; exact for one-character separators)
+        if len(args[0]) != 1:
+            raise Unsupported("count of a multi-character string in a symbolic string")
+        n = z3.Int(f"pieces({tagstr(obj.tag)},{args[0]!r})")
+        ctx().assume(n >= 1)
+        return mk_int(n - 1)
+    if name == "partition" and len(args) == 1 and isinstance(args[0], str) and len(args[0]) == 1 and isinstance(obj, Hole) and not (obj.kind == "ident" and args[0] == "."):
+        n = z3.Int(f"pieces({tagstr(obj.tag)},{args[0]!r})")
+        c_ = ctx()
+        c_.assume(n >= 1)
+        if not c_.branch(n > 1):
+            return (obj, "", "")
+        tail = Hole((obj.tag, "piece", 1), "str") if c_.valid(n == 2)[0] else Hole((obj.tag, "after-first", args[0]), "str")
+        return (Hole((obj.tag, "piece", 0), "str", nonempty=False), args[0], tail)
     if name in ("partition", "rpartition") and len(args) == 1 and args[0] == "." and isinstance(obj, Hole) and obj.kind == "ident":
         has = t_contains(".", obj)
         if isinstance(has, SBool):
